@@ -1,9 +1,160 @@
-(* Properties/C15.v — placeholder while the model is being validated. *)
-From stdpp Require Import gmap.
+(* Properties/C15.v — Channel keys are unique and metadata always matches the storage engines.
+   Only statements, each closed by [exact] (short glue allowed), each followed by Print Assumptions.
+   [step fixed validate] is the executable model of Core/Channel.v; [fixed = true] is /repo's working
+   tree (after the fix: commits F9, F40, F44, F45), [fixed = false] the pinned upstream tree. *)
+From stdpp Require Import gmap strings.
 From Coq Require Import NArith.
-From Synnax Require Import Generated.Consts_C15 Core.Channel.
+From Synnax Require Import Generated.Consts_C15 Core.Channel Core.ChannelKeys Core.ChannelAssign Core.ChannelInv
+  Core.ChannelShrink Core.ChannelCreate Core.ChannelHistory Core.ChannelWitness.
 Local Open Scope N_scope.
 
-Theorem C15_stub : leaseholder (new_key 3 5) = 3.
-Proof. reflexivity. Qed.
-Print Assumptions C15_stub.
+(* (1) A key embeds its leaseholder: NewKey is injective on (node <= 4095, local key <= 2^20-1) and
+   Leaseholder / LocalKey recover the two parts. Re-checked against the split position, mask and
+   limits read from the Go source on every run (Generated/Consts_C15.v). *)
+Theorem C15_key_embeds_leaseholder : forall lease lkey,
+  lease <= node_free -> lkey <= max_local ->
+  leaseholder (new_key lease lkey) = lease /\ local_key (new_key lease lkey) = lkey /\
+  (forall l2 k2, l2 <= node_free -> k2 <= max_local -> new_key lease lkey = new_key l2 k2 -> lease = l2 /\ lkey = k2).
+Proof.
+  intros lease lkey Hl Hk. split; [apply leaseholder_new_key; assumption|].
+  split; [apply local_key_new_key; assumption|]. intros l2 k2 H2 H3. apply new_key_inj; assumption.
+Qed.
+Print Assumptions C15_key_embeds_leaseholder.
+
+(* ... and past the 20-bit boundary it does not: the reason counter.add refuses to pass MaxUint20 *)
+Theorem C15_key_overflow_refuted :
+  new_key 2 (max_local + 1) = new_key 3 0 /\ leaseholder (new_key 2 (max_local + 1)) = 3 /\
+  new_key 1 (max_local + 2) = new_key 1 1.
+Proof. exact new_key_overflow_refuted. Qed.
+Print Assumptions C15_key_overflow_refuted.
+
+(* (2) Key assignment (retrieveExistingAndAssignKeys, current tree): over a table whose rows have
+   non-zero local keys, for ANY request list and option, the j-th new channel gets local key
+   counter+j+1, which is at most the advanced counter, which never passes 2^20-1; a failing call
+   creates nothing and leaves the counter alone. *)
+Theorem C15_counter_reserves_keys : forall t ctr chs retr er ctr' chs2 created amb,
+  tab_pos t ->
+  retrieve_assign true t ctr chs retr = (er, ctr', chs2, created, amb) ->
+  (er <> EOk -> created = [] /\ ctr' = ctr) /\
+  (er = EOk -> ctr <= ctr' /\ ctr' <= max_local /\
+     forall j c, created !! j = Some c ->
+       exists c0, c0 ∈ chs /\ keyed_from c0 c (ctr + N.of_nat j + 1) /\ ctr + N.of_nat j + 1 <= ctr').
+Proof. exact retrieve_assign_spec. Qed.
+Print Assumptions C15_counter_reserves_keys.
+
+(* The pinned upstream code did not (finding F44): two existing channels of one requested name,
+   the counter stays at 6 while key 7 is handed out. *)
+Theorem C15_counter_reserves_keys_upstream_refuted :
+  match retrieve_assign false f44_tab 6 f44_req true with
+  | (er, ctr', _, created, _) => er = EOk /\ ctr' = 6 /\ (c_lkey <$> created) = [7]
+  end.
+Proof. exact retrieve_assign_unfixed_refuted. Qed.
+Print Assumptions C15_counter_reserves_keys_upstream_refuted.
+
+(* (3) The invariant — every row is stored under NewKey(its leaseholder, its local key), leased
+   to a node of the cluster or free, with 0 < local key <= that leaseholder's counter <= 2^20-1;
+   every engine holds only keys of its own node below its counter — is kept by EVERY operation
+   issued through a node, succeeding or failing at any point of a batch, and so by every history:
+   batched creates with both options, renames, deletes by key and name, restarts, counter bumps. *)
+Theorem C15_invariant_step : forall validate s o,
+  Inv s -> op_wf s o -> Inv (step true validate s o).1.
+Proof. exact step_Inv. Qed.
+Print Assumptions C15_invariant_step.
+
+Theorem C15_invariant_history : forall validate ops s,
+  Inv s -> Forall (op_wf s) ops -> Inv (run true validate s ops).
+Proof. intros v ops s I H. exact (proj2 (run_ext v ops s I H)). Qed.
+Print Assumptions C15_invariant_history.
+
+(* (4) Any key that comes into use through an operation (metadata row or engine channel, on
+   success or on a failing batch) is NewKey(lease, local) of a real leaseholder, decodes back to
+   it, and its local part lies strictly above that leaseholder's counter before the operation:
+   it was never handed out before. *)
+Theorem C15_new_keys_fresh : forall validate s o s' r k,
+  Inv s -> op_wf s o -> step true validate s o = (s', r) -> seen s' k -> ~ seen s k ->
+  exists lease lkey, k = new_key lease lkey /\ leaseholder k = lease /\ local_key k = lkey /\
+                     lease_ok s lease /\ ctr_of s lease < lkey /\ lkey <= ctr_of s' lease.
+Proof. exact new_keys_fresh. Qed.
+Print Assumptions C15_new_keys_fresh.
+
+(* (5) Never reused: a key in use at some point of a history and in use nowhere (metadata, any
+   engine) at a later point is in use at no point after that, whatever operations follow. *)
+Theorem C15_keys_never_reused : forall validate s ops1 ops2 ops3 k,
+  Inv s -> Forall (op_wf s) (ops1 ++ ops2 ++ ops3) ->
+  let s1 := run true validate s ops1 in
+  let s2 := run true validate s1 ops2 in
+  let s3 := run true validate s2 ops3 in
+  seen s1 k -> ~ seen s2 k -> ~ seen s3 k.
+Proof. exact keys_never_reused. Qed.
+Print Assumptions C15_keys_never_reused.
+
+(* The pinned upstream tree reused a key that was still in use (finding F44, replayed on the
+   implementation by corpus/C15/03_*; fixed by 79ffb52). *)
+Theorem C15_keys_unique_upstream_refuted : all_ok false false w_s0 w_f44 = true /\ reuses false = true.
+Proof. exact f44_unfixed. Qed.
+Print Assumptions C15_keys_unique_upstream_refuted.
+
+(* (6) Cluster-wide uniqueness and placement: two rows have the same key iff they have the same
+   (leaseholder, local key); the key decodes to the row's leaseholder; an engine channel's key
+   decodes to the node whose engine holds it. *)
+Theorem C15_rows_keyed : forall s k1 k2 c1 c2,
+  Inv s -> s_tab s !! k1 = Some c1 -> s_tab s !! k2 = Some c2 ->
+  (k1 = k2 <-> (c_lease c1 = c_lease c2 /\ c_lkey c1 = c_lkey c2)) /\
+  leaseholder k1 = c_lease c1 /\ local_key k1 = c_lkey c1.
+Proof. exact rows_keyed. Qed.
+Print Assumptions C15_rows_keyed.
+
+Theorem C15_engine_keys_local : forall s n k, Inv s -> is_Some (eng_of s n !! k) -> leaseholder k = n.
+Proof. exact engine_keys_local. Qed.
+Print Assumptions C15_engine_keys_local.
+
+(* (7) Metadata = engines. The pinned upstream tree breaks it with one successful delete of a
+   leased virtual channel (finding F9, fixed by a4733ea): the deleted key stays in use in the
+   engine. On the current tree the same history is consistent and the key is gone. *)
+Theorem C15_meta_eq_engine_upstream_refuted :
+  all_ok false true w_s0 w_f9 = true /\ consistent_b (run false true w_s0 w_f9) = false /\
+  key_in_use_b (run false true w_s0 w_f9) (new_key 2 1) = true.
+Proof. exact f9_unfixed. Qed.
+Print Assumptions C15_meta_eq_engine_upstream_refuted.
+
+(* Two successful requests still break it on the current tree: overwrite of a channel leased to
+   another node (known finding F42) and a rename listing a key twice (known finding F43). *)
+Theorem C15_meta_eq_engine_refuted :
+  (all_ok true true w_s0 w_f42 = true /\ consistent_b (run true true w_s0 w_f42) = false) /\
+  (all_ok true true w_s0 w_f43 = true /\ consistent_b (run true true w_s0 w_f43) = false).
+Proof. exact (conj f42_current f43_current). Qed.
+Print Assumptions C15_meta_eq_engine_refuted.
+
+(* A FAILING delete (index with dependants) removes the metadata row before the engine refuses:
+   the clause is about successful operations. *)
+Theorem C15_failed_delete_diverges :
+  all_ok true true w_s0 w_fail = false /\ consistent_b (run true true w_s0 w_fail) = false.
+Proof. exact failed_delete_diverges. Qed.
+Print Assumptions C15_failed_delete_diverges.
+
+(* (8) Names. Upstream: a calculated channel created through a non-bootstrapper node gets two
+   indexes of the same name (finding F40, fixed by 34864a2). Current tree: the generated index
+   name is still not validated on the bootstrapper (known finding F41). *)
+Theorem C15_names_unique_upstream_refuted :
+  all_ok false true w_s0 w_f40 = true /\ names_ok_b (run false true w_s0 w_f40) = false.
+Proof. exact f40_unfixed. Qed.
+Print Assumptions C15_names_unique_upstream_refuted.
+
+Theorem C15_names_unique_refuted :
+  all_ok true true w_s0 w_f41 = true /\ names_ok_b (run true true w_s0 w_f41) = false.
+Proof. exact f41_current. Qed.
+Print Assumptions C15_names_unique_refuted.
+
+(* Non-vacuity: the empty two-node cluster satisfies the invariant; a history creating an index, a
+   leased virtual, a free and a calculated channel through node 2, a data channel through node 1,
+   renaming, deleting and retrieving succeeds at every step, ends consistent with valid unique
+   names, the deleted key is in use nowhere and six keys are live. *)
+Example C15_nonvacuous :
+  Inv w_s0 /\ Forall (op_wf w_s0) w_ops /\ all_ok true true w_s0 w_ops = true /\
+  consistent_b (run true true w_s0 w_ops) = true /\ names_ok_b (run true true w_s0 w_ops) = true /\
+  key_in_use_b (run true true w_s0 w_ops) (new_key 2 1) = false /\
+  key_in_use_b (run true true w_s0 w_ops) (new_key 2 2) = true.
+Proof.
+  split; [exact w_s0_Inv|]. split; [repeat constructor; vm_compute; eauto|].
+  destruct w_ops_facts as (H1 & H2 & H3 & H4 & H5 & _). auto.
+Qed.
